@@ -181,6 +181,7 @@ pub fn run(args: &Args, rep: &mut Report) {
         // reads that stamp the access date go through the same deferred entry update as writes do
         scfg.update_accessed = rng.chance(1, 2);
         scfg.opt_order = rng.below(12) as u8;
+        scfg.short_dev = if rng.chance(1, 6) { Some(rng.next_u64()) } else { None };
         let class = fnv_of(&[&vc.class(), if scfg.update_accessed { "atime" } else { "noatime" }, if scfg.frozen_clock { "frozen" } else { "running" }]);
         let mut src = RandomSource::new(seed, 0x14e, id, g);
         let o = run_session(&scfg, &img, vb, class, &mut src);
